@@ -44,6 +44,7 @@ func TestC14(t *testing.T) {
 func c14projection(r *simkit.Run) {
 	rt := r.T
 	guardRun = r
+	drawSrcBase(r.T)
 	rates := drawRates(rt, true, int64(rapid.SampledFrom([]int{3, 20, 300}).Draw(rt, "avg-scale")))
 	drawRateSource(rt)
 	nsrc := rapid.IntRange(2, 6).Draw(rt, "sources")
@@ -158,6 +159,7 @@ func c14projection(r *simkit.Run) {
 func c14eviction(r *simkit.Run) {
 	rt := r.T
 	guardRun = r
+	drawSrcBase(r.T)
 	capacity := rapid.IntRange(1, 4).Draw(rt, "capacity")
 	nsrc := capacity + rapid.IntRange(1, 2*capacity).Draw(rt, "extra-sources")
 	// long periods: the whole scenario stays far below any entry lifetime
@@ -278,6 +280,7 @@ func c14eviction(r *simkit.Run) {
 func c14connTwin(r *simkit.Run) {
 	rt := r.T
 	guardRun = r
+	drawSrcBase(r.T)
 	nsrc := rapid.IntRange(2, 4).Draw(rt, "sources")
 	limit := rapid.IntRange(0, 4).Draw(rt, "limit")
 	sim := simrt.New(r.Chooser())
@@ -392,6 +395,7 @@ func c14connTwin(r *simkit.Run) {
 func c14evictionLRU(r *simkit.Run) {
 	rt := r.T
 	guardRun = r
+	drawSrcBase(r.T)
 	capacity := rapid.IntRange(1, 4).Draw(rt, "capacity")
 	nsrc := capacity + rapid.IntRange(1, 2*capacity).Draw(rt, "extra-sources")
 	var rates []rateSpec
@@ -539,6 +543,7 @@ func seq(n int) []int {
 func c14evictionHetero(r *simkit.Run) {
 	rt := r.T
 	guardRun = r
+	drawSrcBase(r.T)
 	capacity := rapid.IntRange(1, 3).Draw(rt, "capacity")
 	nsrc := capacity + rapid.IntRange(1, 8).Draw(rt, "extra-sources")
 	periods := []time.Duration{time.Second, 10 * time.Second, time.Minute, time.Hour}
